@@ -340,7 +340,7 @@ func advProperty(t *testing.T, names []string, quick, thorough int) {
 	rec := ev.Get(ID)
 	rec.SetRule(rule)
 	g := genAdv(names)
-	rec.Check(t, "adv", ev.N(quick, thorough), func(rt *rapid.T) {
+	checkSerial(rec, t, "adv", ev.N(quick, thorough), func(rt *rapid.T) {
 		c := g.Draw(rt, "case")
 		if sig := excludedAdv(&c); sig != "" {
 			rec.Discarded("adv:excluded shape of open finding " + sig)
